@@ -9,7 +9,7 @@ CLAIMED = {
  "C02": ("WrErrorString counters as an inductive step (any counts < 2^31, any class/-Werror/-maxerrors), exit(3)+unlink on fatal, classification of every 16-bit message number in WrXErrorPos, EXPECT/ENDEXPECT bookkeeping",
          "DESIGN.md C02", "message text, position strings and output channels cut to empty bodies; exit() modelled; AssembleFile decision skeleton not yet covered"),
  "C04": ("asmcode.c writer: one inductive step each of WriteBytes/NewRecord/OpenFile/CloseFile/RetractWords from an arbitrary state satisfying the representation invariant, byte-exact through a witness cell at an arbitrary file offset",
-         "DESIGN.md C04", "stdio replaced by the witness-cell file model (stubs/vfile.h, no I/O errors); relocation records outside; lines 1..8 bytes quick, 504..520 thorough; little-endian host"),
+         "DESIGN.md C04", "stdio replaced by the witness-cell file model (stubs/vfile.h, no I/O errors); relocation records outside; lines 1..8 bytes against the 512-byte buffer and 1..24 against a buffer shrunk to 16 (source substitution) quick, 1..48 against 32 thorough; little-endian host"),
  "C03": ("crash-freedom of the shared record reader of the utilities (ReadRecordHeader/SkipRecord/ReadRelocInfo on every file of <= 10 arbitrary bytes: no memory fault, documented exit status, every record consumes input) and of the assembler kernels whose inputs used to crash it: integer / and # (incl. -2^63 / -1), shifts, SUBSTR/CHARFROMSTR with arbitrary positions, every sequence of 4 conditional statements incl. stray ones, ALIGN incl. 0",
          "DESIGN.md C03", "kernels only: the whole utilities on arbitrary bytes and the assembler front end on arbitrary source text do not finish under symex (harnesses kept as 'experimental'); defects known by reading are listed in DESIGN.md section 7"),
  "C05": ("P2BIN image: the real MeasureFile/OpenTarget/ProcessFile/CloseTarget on a code file of 2 records (long/short/entry forms, <= 4 bytes each, any start) with symbolic option state (-r explicit/auto, -l, -m per slice, -S -4..4, -e, -f, -segment, (offset)): every image byte through a witness cell, file length, auto range, entry header, overlap warning; RemoveOffset kernel",
